@@ -202,7 +202,19 @@ def r4_split(ctx):
     ip = Interp(repo, call_models={"self.key": lambda run, a, k, n, f: "K1",
                                    f"{G}.split.Splitter.cut_edge": lambda run, a, k, n, f: (cut_args.append(list(a)), (_node("cutsink"), SRC))[1]})
     env = {"self.cuts": [], "self.sinks": {}}
-    paths = ip.explore(nfi, env=env, args={"node": nd, "inputs": {"a": ("K1", _out(PA)), "b": ("K2", _out(PB, "o2"))}})
+    # upstream values are produced by the splitter's own node()/output() so that the rule is independent of their representation
+    ofi = repo.func(f"{G}.split.Splitter.output")
+    ups = {}
+    for nm, src, key, oname in (("a", PA, "K1", "0"), ("b", PB, "K2", "o2")):
+        ipk = Interp(repo, call_models={"self.key": lambda run, a, k, n, f, _k=key: _k})
+        tp = [q for q in ipk.explore(nfi, env={"self.cuts": [], "self.sinks": {}}, args={"node": src, "inputs": {}}) if q.exit[0] == "return"]
+        to = [q for q in (Interp(repo, call_models={f"{NODE}.get_output": lambda run, a, k, n, f, _s=src: _out(_s, a[0] if a else k.get("name", "0"))})
+                          .explore(ofi, env={}, args={"tnode": tp[0].exit[1], "output": oname}) if len(tp) == 1 else []) if q.exit[0] == "return"]
+        if len(to) != 1:
+            ctx.undecided("C11.R4", loc(ofi), f"cannot obtain the transformed output of an upstream node through Splitter.node/output ({len(tp)}/{len(to)} paths)")
+            return
+        ups[nm] = to[0].exit[1]
+    paths = ip.explore(nfi, env=env, args={"node": nd, "inputs": ups})
     ctx.evals(len(paths))
     for p in paths:
         rv = p.exit[1] if p.exit[0] == "return" else None
@@ -227,43 +239,45 @@ def r4_split(ctx):
 
 
 def r6_cmp_nodes(ctx):
+    """C11.R6: de-duplication merges a node into an earlier one exactly when outputs, input names, consumed outputs and parents
+    agree AND the payload predicate agrees — decided through the transformer's own entry point (_DedupTransformer.node), whatever
+    helpers it is built from."""
     repo = ctx.repo
-    fi = repo.func(f"{G}.deduplicate._cmp_nodes")
+    fi = repo.func(f"{G}.deduplicate._DedupTransformer.node")
     ctx.analysed(fi.qual)
+    for h in ("_cmp_nodes", "_DedupTransformer.__find_node"):
+        if f"{G}.deduplicate.{h}" in repo.funcs:
+            ctx.analysed(f"{G}.deduplicate.{h}")
     P1, P2 = _node("p1"), _node("p2")
     table = []
-    for same_outputs in (True, False):
-        for same_keys in (True, False):
-            for same_oname in (True, False):
-                for same_parent in (True, False):
-                    a = _node("a", {"x": _out(P1, "o1")}, ["0"])
-                    b = _node("b", {("x" if same_keys else "y"): _out(P1 if same_parent else P2, "o1" if same_oname else "o2")}, ["0"] if same_outputs else ["0", "1"])
-                    paths = Interp(repo).explore(fi, args={"a": a, "b": b})
-                    ctx.evals(len(paths))
-                    got = [p.exit[1] for p in paths if p.exit[0] == "return"]
-                    want = same_outputs and same_keys and same_oname and same_parent
-                    atoms = {"same_outputs": same_outputs, "same_input_names": same_keys, "same_consumed_output": same_oname, "same_parent_object": same_parent}
-                    table.append({**atoms, "equal": vkey(got), "spec": want})
-                    if len(paths) != 1 or got != [want]:
-                        ctx.violation("C11.R6", fi.qual, loc(fi), "node equivalence for de-duplication",
-                                      f"{atoms}: _cmp_nodes = {vkey(got) if got else [p.exit[0] for p in paths]}, must be {want} — merging nodes that differ in outputs, input names, the "
-                                      f"consumed output or the parent changes what a sink computes", row=atoms)
-                    else:
-                        ctx.ok("C11.R6", loc(fi), f"_cmp_nodes | {atoms} -> {want}")
-    ctx.table("C11.R6", table)
-    # the payload predicate is consulted as well
-    fn = repo.func(f"{G}.deduplicate._DedupTransformer.__find_node")
-    other = _node("other")
     for pred_val in (True, False):
-        ip = Interp(repo, call_models={f"{G}.deduplicate._cmp_nodes": lambda *a: True}, inline=set())
-        env = {"self.nodes": {other}, "self.pred": ModelFn("pred", lambda run, a, k, n, f, _v=pred_val: _v)}
-        ps = ip.explore(fn, env=env, args={"node": _node("n")})
-        got = [getattr(p.exit[1], "name", p.exit[1]) for p in ps if p.exit[0] == "return"]
-        want = [other.name] if pred_val else [None]
-        if got != want:
-            ctx.violation("C11.R6", fn.qual, loc(fn), "payload predicate consulted", f"structurally equal candidate, predicate says {pred_val}: __find_node returns {got}, expected {want}")
-        else:
-            ctx.ok("C11.R6", loc(fn), f"structurally equal candidate, predicate {pred_val} -> {'merged' if pred_val else 'kept apart'}")
+        for same_outputs in (True, False):
+            for same_keys in (True, False):
+                for same_oname in (True, False):
+                    for same_parent in (True, False):
+                        a = _node("a", {"x": _out(P1, "o1")}, ["0"])
+                        b = _node("b", {}, ["0"] if same_outputs else ["0", "1"])
+                        b_in = {("x" if same_keys else "y"): _out(P1 if same_parent else P2, "o1" if same_oname else "o2")}
+                        env = {"self.nodes": {a}, "self.pred": ModelFn("pred", lambda run, a_, k, n, f, _v=pred_val: _v)}
+                        paths = Interp(repo).explore(fi, env=env, args={"node": b, "inputs": b_in})
+                        ctx.evals(len(paths))
+                        got = [getattr(p.exit[1], "name", vkey(p.exit[1])) for p in paths if p.exit[0] == "return"]
+                        merge = same_outputs and same_keys and same_oname and same_parent and pred_val
+                        atoms = {"same_outputs": same_outputs, "same_input_names": same_keys, "same_consumed_output": same_oname,
+                                 "same_parent_object": same_parent, "payload_predicate": pred_val}
+                        table.append({**atoms, "result": vkey(got), "spec": "merged" if merge else "kept apart"})
+                        want = [a.name if merge else b.name]
+                        kept = None
+                        if len(paths) == 1 and isinstance(paths[0].heap.get("self.nodes"), (set, list, dict)):
+                            kept = sorted(getattr(x, "name", "?") for x in paths[0].heap["self.nodes"])
+                        if len(paths) != 1 or got != want or (kept is not None and kept != ([a.name] if merge else sorted([a.name, b.name]))):
+                            ctx.violation("C11.R6", fi.qual, loc(fi), "node equivalence for de-duplication",
+                                          f"{atoms}: the transformer returns {got if got else [p.exit[0] for p in paths]} (remembered nodes {kept}), must be {want} — merging nodes "
+                                          f"that differ in outputs, input names, the consumed output, the parent or the payload changes what a sink computes; not "
+                                          f"merging identical ones is what de-duplication is for", row=atoms)
+                        else:
+                            ctx.ok("C11.R6", loc(fi), f"dedup | {atoms} -> {'merged' if merge else 'kept apart'}")
+    ctx.table("C11.R6", table)
 
 
 RULES = [r1_prefix_strip, r2_rewire, r3_fuse, r4_split, r6_cmp_nodes]
